@@ -15,22 +15,24 @@ LRet(x) == IF Len(x) = 0 THEN None ELSE T2(x)
 
 Ev(a) == l <= TraceLen /\ Trace[l].a = a /\ l' = l + 1
 Logged == /\ expected' = LSeq(Trace[l].E) /\ processed' = LSet(Trace[l].P)
+          /\ cancelled' = (IF Has(Trace[l], "cancelled") THEN Trace[l].cancelled ELSE cancelled)
           /\ ret' = (IF Has(Trace[l], "ret") THEN LRet(Trace[l].ret) ELSE None)
 
 TInit == Init /\ l = 1
 
 Reset == /\ Ev("Reset")
-         /\ expected' = <<>> /\ processed' = {} /\ ret' = None
+         /\ expected' = <<>> /\ processed' = {} /\ ret' = None /\ cancelled' = FALSE
          /\ threshold' = Trace[l].th /\ restrict' = FALSE /\ feedOrdered' = TRUE
          /\ everExp' = {} /\ everProc' = {} /\ ckpts' = <<>> /\ shE' = <<>> /\ shP' = {} /\ shRet' = None
-         /\ dupFree' = TRUE /\ hist' = <<>>
+         /\ dupFree' = TRUE /\ accExp' = {} /\ hist' = <<>>
 
 (* pass P: implementation variables := logged real state; ghosts advance from the logged inputs *)
 PExpect       == Ev("Expect")       /\ Logged /\ GhostExpect(LSeq(Trace[l].toks))       /\ UNCHANGED hist
 PAlreadyKnown == Ev("AlreadyKnown") /\ Logged /\ GhostAlreadyKnown(LSeq(Trace[l].toks)) /\ UNCHANGED hist
 PProcessed    == Ev("Processed")    /\ Logged /\ GhostProcessed(T2(Trace[l].toks[1]))    /\ UNCHANGED hist
 PTick         == Ev("Tick")         /\ Logged /\ GhostTick                            /\ UNCHANGED hist
-PNext == Reset \/ PExpect \/ PAlreadyKnown \/ PProcessed \/ PTick
+PCancel       == Ev("Cancel")       /\ Logged /\ GhostCancel                          /\ UNCHANGED hist
+PNext == PCancel \/ Reset \/ PExpect \/ PAlreadyKnown \/ PProcessed \/ PTick
 PSpec == TInit /\ [][PNext]_tvars
 
 (* pass C: each logged step is an instance of the corresponding action, from the previous REAL state *)
@@ -38,7 +40,8 @@ CExpect       == Ev("Expect")       /\ ImplExpect(LSeq(Trace[l].toks))       /\ 
 CAlreadyKnown == Ev("AlreadyKnown") /\ ImplAlreadyKnown(LSeq(Trace[l].toks)) /\ Logged /\ GhostAlreadyKnown(LSeq(Trace[l].toks)) /\ UNCHANGED hist
 CProcessed    == Ev("Processed")    /\ ImplProcessed(T2(Trace[l].toks[1]))    /\ Logged /\ GhostProcessed(T2(Trace[l].toks[1]))    /\ UNCHANGED hist
 CTick         == Ev("Tick")         /\ ImplTick                            /\ Logged /\ GhostTick                            /\ UNCHANGED hist
-CNext == Reset \/ CExpect \/ CAlreadyKnown \/ CProcessed \/ CTick
+CCancel       == Ev("Cancel")       /\ ImplCancel /\ Logged /\ GhostCancel           /\ UNCHANGED hist
+CNext == CCancel \/ Reset \/ CExpect \/ CAlreadyKnown \/ CProcessed \/ CTick
 CSpec == TInit /\ [][CNext]_tvars
 
 Progress == Mark(l)
